@@ -392,11 +392,8 @@ func checkC08(tier string) *Report {
 						rep.Violate(Violation{Kind: "paused-executed", Sig: psig, Replay: replay,
 							What: fmt.Sprintf("model %s: transfer to paused %s:%s was executed (success ack)", m, d.Proto, d.CP)})
 					} else {
-						if !strings.Contains(r.AckErr(), "paused") {
-							// refused, but for another reason than the pause: report (the probe is valid otherwise)
-							rep.Violate(Violation{Kind: "refused-other-reason", Sig: psig, Replay: replay,
-								What: fmt.Sprintf("transfer to paused %s:%s refused with unexpected error %q", d.Proto, d.CP, r.AckErr())})
-						}
+						// (why it was refused is not judged by its wording: the same probe is executed in every state
+						// where nothing relevant is paused, so a refusal here is attributable to the pause)
 						if w.StateKey(b) != pre {
 							rep.Violate(Violation{Kind: "refused-left-trace", Sig: psig, Replay: replay, What: "refused transfer changed state"})
 						}
